@@ -130,6 +130,17 @@ def run_case(path, sel_obj, nrec, written=None, ref=None):
             stable[i] = bool(matcher.match(r)) == after[i] and bool(fresh.match(r)) == after[i]
         except Exception:
             stable[i] = False
+    # (4) endurance: the same selector object goes on meeting the same records (a long-running filter job): whatever it
+    #     counts, caches or leaks per match, the answers stay what they were
+    if end_after == "end" and allrecs:
+        for _rep in range(-(-160 // len(allrecs))):
+            for r in allrecs:
+                i = rid(r)
+                try:
+                    if bool(matcher.match(r)) != after.get(i):
+                        stable[i] = False
+                except Exception:
+                    stable[i] = False
     recs = []
     for r in allrecs:
         i = rid(r)
@@ -179,6 +190,90 @@ def fixed_order_cases(order):
                 c = run_case(full, mk(s), len(seq), written, REF.get(s))
                 c["adapter"], c["form"], c["selector"], c["order"] = aname, fname, s, order
                 out.append(c)
+    return out
+
+
+KW_SELECTORS = [f"field_contains(r, ['s', 'w'], [{w!r}], nocase={nc}, word_boundary={wb})" for w in ("ab", "AB", "a", "B") for nc in (True, False) for wb in (True, False)] + \
+               [f"field_equals(r, ['s', 'w'], [{w!r}], nocase={nc})" for w in ("ab", "AB", "a") for nc in (True, False)] + \
+               [f"field_regex(r, ['s'], {rx!r})" for rx in ("a.", "A.", "^a", "(?i)^a", "b$")] + \
+               ["lower(r.s) == 'ab'", "upper(r.s) == 'AB'", "r.s in ['a', 'Ab']", "r.s == 'Ab'", "r.s == 'ab'", "str(r.n) == '1'", "str(r.t) == 'True'", "str(r.n) == 'True'",
+                "Type.string == 'ab'", "Type.string == 'Ab'", "'A' in Type.string", "'a' in Type.string"]
+
+
+def selector_order_cases(order):
+    """A NEW process evaluates the same list of selectors (helper calls that differ only in an option, in a literal's case or
+    type) on the same records -- forwards, backwards or in a seeded shuffle.  What one selector leaves behind in the process
+    must not change the answers of another.  -> {selector text: [result per record and engine]}"""
+    import random
+
+    from flow.record import RecordDescriptor
+    from flow.record.selector import CompiledSelector, Selector
+
+    D = RecordDescriptor("t/ord", [("string", "s"), ("string", "w"), ("varint", "n"), ("boolean", "t")])
+    recs = [D(a, b, n, t, _generated=gen.GEN) for a, b, n, t in (("ab", "x", 1, True), ("AB", "x", 0, False), ("xab", "Ab y", 1, False), ("Ab", "a b", 2, True), ("x ab y", "", 1, True), ("x AB y", "B", 0, True), ("", "a", 1, False))]
+    sels = list(KW_SELECTORS)
+    if order == "backward":
+        sels.reverse()
+    elif order != "forward":
+        random.Random(int(order)).shuffle(sels)
+    out = {}
+    for s in sels:
+        res = []
+        for cls in (Selector, CompiledSelector):
+            for r in recs:
+                try:
+                    res.append(bool(cls(s).match(r)))
+                except Exception as e:
+                    res.append("exc:" + type(e).__name__)
+        out[s] = res
+    return out
+
+
+class _Reenter(str):
+    """a text value whose comparison looks at ANOTHER record with the same selector object before it answers (a filter used
+    from two places at once: a callback, a second reader, another thread)"""
+    hook = None
+
+    def __eq__(self, other):
+        h = type(self).hook
+        if h is not None:
+            type(self).hook = None
+            try:
+                h()
+            finally:
+                type(self).hook = h
+        return str.__eq__(self, other)
+
+    __hash__ = str.__hash__
+
+
+def reentrant_cases():
+    from flow.record import RecordDescriptor
+    from flow.record.selector import CompiledSelector, Selector
+
+    D = RecordDescriptor("t/re", [("string", "s"), ("string", "w"), ("varint", "n")])
+    out = []
+    for src in ("r.s == 'a' and r.w == 'b'", "r.s == 'a' and r.n == 1", "r.s == 'a' or r.w == 'b'", "(r.s == 'a') == (r.w == 'b')", "any(x == 'a' for x in [r.s, r.w]) and r.n == 1", "r.s == 'a' and lower(r.w) == 'b'"):
+        for cls, form in ((Selector, "selector"), (CompiledSelector, "compiled")):
+            plain = [D("a", "b", 1, _generated=gen.GEN), D("a", "zz", 2, _generated=gen.GEN), D("q", "b", 1, _generated=gen.GEN)]
+            other = D("q", "q", 9, _generated=gen.GEN)
+            expected = [bool(cls(src).match(r)) for r in plain]
+            sel = cls(src)
+            recs = []
+            for i, r in enumerate(plain):
+                rr = r._desc.recordType.__new__(r._desc.recordType)
+                for k in r.__slots__:
+                    object.__setattr__(rr, k, getattr(r, k))
+                object.__setattr__(rr, "s", _Reenter(str(r.s)))
+                _Reenter.hook = lambda: sel.match(other)
+                try:
+                    got = bool(sel.match(rr))
+                except Exception:
+                    got = None
+                finally:
+                    _Reenter.hook = None
+                recs.append({"id": i + 1, "inline": expected[i], "after": expected[i], "pure": True, "stable": got == expected[i]})
+            out.append(({"recs": recs, "ref_ok": True, "end_inline": "end", "end_after": "end", "values_equal": True, "n_all": len(recs), "adapter": "reentrant", "form": form}, src))
     return out
 
 
@@ -295,6 +390,21 @@ def run(tier):
             cases.append(c)
             metas.append((c["adapter"] + "/" + order, c["form"], c["selector"], 0))
             ctx.case(("fixed-order", order, c["adapter"], c["form"], c["selector"]))
+    # process-wide state between SELECTORS: the same list evaluated forwards, backwards and shuffled by fresh interpreters
+    runs = {o: common.in_fresh_process("c10", "selector_order_cases", o) for o in ("forward", "backward", str(ctx.seed + 3), str(ctx.seed + 4))}
+    base = runs["forward"]
+    for stext in KW_SELECTORS:
+        same = all(runs[o].get(stext) == base.get(stext) for o in runs)
+        n = len(base[stext])
+        recs = [{"id": i + 1, "inline": base[stext][i] is True, "after": base[stext][i] is True, "pure": True, "stable": all(runs[o][stext][i] == base[stext][i] for o in runs)} for i in range(n)]
+        cases.append({"recs": recs, "ref_ok": True, "end_inline": "end", "end_after": "end", "values_equal": True, "n_all": n, "adapter": "selector-order", "form": "both"})
+        metas.append(("selector-order", "both engines, 4 evaluation orders", stext, 0))
+        ctx.case(("selector-order", stext))
+    # the same selector object used from two places at once
+    for c, src in reentrant_cases():
+        cases.append(c)
+        metas.append(("reentrant", c["form"], src, 0))
+        ctx.case(("reentrant", c["form"], src))
     for i in (0, len(cases) // 2):
         ctx.sample({"adapter": metas[i][0], "form": metas[i][1], "selector": metas[i][2], "case": cases[i]})
     path = os.path.join(common.scratch("c10t"), "cases.json")
